@@ -24,7 +24,7 @@ class Case:
     def __init__(self, target, variant="", setup=None, requires=(), ensures=(),
                  raises=None, loops=None, call_contracts=None, specs=None,
                  overflow=True, note="", may_raise=(), level="proof", timeout=None,
-                 helper_loops=None, exc_ensures=None, libs=None):
+                 helper_loops=None, exc_ensures=None, libs=None, recursive=()):
         self.target = target
         self.variant = variant
         self.setup = setup
@@ -42,6 +42,7 @@ class Case:
         self.helper_loops = helper_loops or {}
         self.exc_ensures = exc_ensures or {}
         self.libs = libs or {}
+        self.recursive = tuple(recursive)
 
     @property
     def name(self):
